@@ -48,8 +48,12 @@ prop("C13",
      ],
      outside=["Windows (fork option rejected there)", "semantic validity of handle numbers, FILE "
               "objects and paths (that is C04/C10)"])
-add("C13", lambda tier: [Job("h_options", model=False, shim=False, unwind=4,
-                             bounds={"ints": "full 32-bit", "streams": 3})])
+add("C13", lambda tier: [Job("h_options", model=False, shim=False, unwind=4, solvers=("minisat",),
+                             bounds={"ints": "full 32-bit", "streams": 3}),
+                         Job("h_noeffect", defines={"VP_MAXEV": 1, "VP_NFD": 18, "VP_NOFD": 18}, unwind=20,
+                             params={"nfd": 18, "retry": 2, "input_max": 2}, cbmc_flags=["--slice-formula"],
+                             timeout=1200, solvers=("cadical", "minisat"),
+                             bounds={"redirect_types": "-2..9", "handles": "0..5"})])
 
 # ------------------------------------------------------------------ start harness (shared)
 
@@ -157,14 +161,15 @@ def history_jobs(tier, F=0, which=range(10)):
 
 
 def history_job(tier, F=0, which=None, K=1):
-    d = {"VP_K": K, "VP_K2": 1, "VP_F": F, "VP_MAXEV": 1, "VP_NFD": 14, "VP_NOFD": 14}
+    K2 = 0 if tier == "quick" else 1
+    d = {"VP_K": K, "VP_K2": K2, "VP_F": F, "VP_MAXEV": 1, "VP_NFD": 14, "VP_NOFD": 14}
     if which is not None:
         d["VP_WHICH"] = which
     return Job("h_history", variant="%s-K%d-F%d" % (API[which] if which is not None else "any", K, F),
                defines=d,
                unwind=16, params={"nfd": 14, "retry": 3, "input_max": 0},
                cbmc_flags=["--slice-formula"], timeout=1500, solvers=("cadical", "kissat"),
-               bounds={"calls_after_prefix": "%d + 1 cheap" % K, "faults_after_start": F, "children": 1})
+               bounds={"calls_after_prefix": "%d + %d cheap" % (K, K2), "faults_after_start": F, "children": 1})
 
 
 HIST_ASSUME = STOP_ASSUME[:2] + [
@@ -404,3 +409,60 @@ prop("C19", units=["reproc++/src/reproc.cpp", "reproc++/include/reproc++/reproc.
               "Windows handle types"])
 add("C19", lambda tier: [cxx_job(1, "options_from"), cxx_job(2, "clone"), cxx_job(3, "error_code"),
                          cxx_job(4, "methods", unwind=44), cxx_job(5, "containers", unwind=44), cxx_job(6, "enums", unwind=66)])
+
+
+def drain_job(tier, mode, errmode):
+    S = 3 if tier == "quick" else 4
+    return Job("h_drain", variant="%s-err%d-S%d" % ("drain" if mode == 0 else "run", errmode, S),
+               defines={"VP_MODE": mode, "VP_S": S, "VP_ERRMODE": errmode, "VP_IO": 1, "VP_MAXEV": S + 1,
+                        "VP_NFD": 16, "VP_NOFD": 16, "VP_LOG": 6},
+               unwind=18, params={"nfd": 16, "retry": 3, "input_max": 0},
+               cbmc_flags=["--slice-formula"], timeout=2400, solvers=("cadical", "kissat"),
+               bounds={"child_io_actions": S, "sink_calls_logged": 8, "pipe_capacity_bytes": 2})
+
+
+prop("C16", units=["reproc/src/drain.c (reproc_drain, sink_string, reproc_sink_string, reproc_free)",
+                   "reproc/src/run.c (reproc_run, reproc_run_ex)", "reproc/src/reproc.c (reproc_poll, reproc_read, "
+                   "reproc_stop, reproc_destroy)"],
+     assumptions=IO_ASSUME + [
+         "sinks are logging stubs; one of them may return any non-zero value at any call index",
+         "H_run: the handle is internal, so the child's stream pipes are identified by scanning the descriptor table at "
+         "the first sink call; at most one injected fault; blocking forever is permitted (timing is C07/C15)",
+         "H_sink_string: previous content NULL or <= 3 bytes, chunk <= 3 bytes, realloc may fail",
+     ],
+     outside=["reproc++/drain.hpp and run.hpp", "chunks larger than the 2-byte pipe model", "more than 8 sink calls"])
+add("C16", lambda tier: [unit_job(6, "sink_string"), drain_job(tier, 0, 1), drain_job(tier, 1, 1)] +
+    ([drain_job(tier, 0, 2), drain_job(tier, 0, 0)] if tier == "thorough" else []))
+
+
+def frame_job(foot):
+    n = 2
+    return Job("h_frame", variant="footprint" if foot else "frame",
+               defines={"VP_FOOT": foot, "VP_NCHILD": n, "VP_NPIPE": 4 * n, "VP_NFD": 3 + 4 * n + 1,
+                        "VP_NOFD": 3 + 8 * n + 1, "VP_MAXEV": n},
+               unwind=3 + 8 * n + 3, params={"n_sources": 1}, cbmc_flags=["--slice-formula"], timeout=1800,
+               solvers=("cadical", "kissat"), bounds={"handles": 2, "calls": 1})
+
+
+def static_job():
+    j = Job("symtab", variant="static-storage", bounds={"scope": "all static-storage objects defined in reproc/src POSIX units"})
+    j.structural = True
+    return j
+
+
+prop("C20", units=["reproc/src/reproc.c (reproc_read, reproc_write, reproc_close, reproc_wait, reproc_terminate, "
+                   "reproc_kill, reproc_poll)", "reproc/src/error.posix.c (error_string)", "all POSIX units "
+                   "(static-storage objects)"],
+     assumptions=COMMON_ASSUME + [
+         "REDUCED STRENGTH: real thread schedules are not encoded (goto-instrument --race-check aborts on struct members "
+         "in this CBMC; kernel atomicity is outside any model). Decided instead: (a) frame - one API call on handle A "
+         "leaves every field of handle B, B's descriptors, B's child and signals untouched; (b) footprint - reproc_read "
+         "and reproc_write have disjoint write sets and neither uses the other's pipe field even when it holds garbage; "
+         "(c) every static-storage object of the library is const or thread-local (from the goto symbol table); "
+         "(d) start: no sigprocmask, no write of environ in the parent (H_start), children close foreign descriptors (C11)",
+         "handles are constructed directly in arbitrary states satisfying the representation invariant",
+     ],
+     outside=["interleavings of a reader and a writer thread (only their footprints are compared)", "dead reads",
+              "kernel atomicity of concurrent read/write/fork", "TSan-class dynamic races", "the window between pipe() "
+              "and FD_CLOEXEC when another thread forks (C11's child-side closing loop is what protects against it)"])
+add("C20", lambda tier: [frame_job(0), frame_job(1), static_job()] + start_jobs(tier, 0, F=0, types=(1,)))
